@@ -233,9 +233,10 @@ def judge(family, case, rec):
             for i in nonsrc:
                 for k in range(e):
                     evs = [ev for ev in events if ev["op"] == "predict" and fit_of.owner.get(ev["fit"]) == (i, k)]
-                    if not evs or sum(ev["weights"].shape[0] for ev in evs) != nbig:
+                    Wr = _weights_by_row(evs, range(len(evs)), np.asarray(res[k])[:, parents[i]], len(parents[i])) if evs else None
+                    if Wr is None or len(Wr) != nbig:
                         continue
-                    ev = {"weights": np.vstack([ev["weights"] for ev in evs])}
+                    ev = {"weights": np.vstack(Wr)}
                     pos = {v: r for r, v in enumerate(data0[k][:, i].tolist())}
                     col = np.asarray(res[k])[:, i].tolist()
                     rk = np.full(nbig, -1)
@@ -332,10 +333,11 @@ def _check_output(rec, family, case, res, events, sizes, data0, parents, sources
                 rec.count("queries:in-several-batches")
             for q in hits:
                 used[q] = True
-            # one query or several (batches): together they must present the final synthetic parent columns, row by row
-            new_all = np.vstack([preds[q]["newdata"].reshape(-1, max(1, len(parents[i]))) for q in hits])
-            Wt = np.vstack([preds[q]["weights"] for q in hits])
-            if new_all.shape != want_new.shape or not np.array_equal(new_all, want_new):
+            # one query or several (batches, or one row per distinct parent configuration): every synthetic row's parent values must
+            # have been put to the forest, every query row must be the parent values of some synthetic row, and the value of the
+            # row must lie in the support of the weights answered for its parent values
+            Wrow = _weights_by_row(preds, hits, want_new, len(parents[i]))
+            if Wrow is None:
                 rec.violation("C19:query-not-on-synthetic-parents", family, case,
                               "variable %d, environment %d: the forest was queried with data that is not the final synthetic columns of its parents %s (in increasing index)"
                               % (i, k, parents[i]), **ctx)
@@ -343,7 +345,7 @@ def _check_output(rec, family, case, res, events, sizes, data0, parents, sources
             Y = data0[k][:, i]
             col = a[:, i]
             for r in range(len(col)):
-                sup = Y[Wt[r] > 0]
+                sup = Y[Wrow[r] > 0]
                 if col[r] not in sup:
                     rec.violation("C19:value-outside-query-support", family, case,
                                   "variable %d, environment %d, row %d: value is not among the training responses weighted by its query row" % (i, k, r), **ctx)
@@ -352,6 +354,32 @@ def _check_output(rec, family, case, res, events, sizes, data0, parents, sources
         rec.violation("C19:unexpected-query", family, case, "%d queries addressed to forests of no (non-source node, environment) pair" % (len(used) - sum(used)), **ctx)
         return False
     return True
+
+
+def _weights_by_row(preds, hits, want_new, npar):
+    """The weight vector answered for the parent values of every synthetic row (None if a row was never asked about, or if a
+    query row is not the parent values of any synthetic row)."""
+    table = {}
+    for q in hits:
+        nd = np.asarray(preds[q]["newdata"], dtype=float).reshape(-1, max(1, npar))
+        Wq = preds[q]["weights"]
+        if len(nd) != len(Wq):
+            return None
+        for r in range(len(nd)):
+            table[nd[r].tobytes()] = Wq[r]
+    want = np.ascontiguousarray(np.asarray(want_new, dtype=float).reshape(-1, max(1, npar)))
+    rows = []
+    seen = set()
+    for r in range(len(want)):
+        key = want[r].tobytes()
+        w = table.get(key)
+        if w is None:
+            return None
+        seen.add(key)
+        rows.append(w)
+    if len(seen) != len(table):
+        return None           # a query on values that are not the parents of any synthetic row
+    return rows
 
 
 class FitBook:
